@@ -14,12 +14,17 @@ HARNESS = dict(
     extra_srcs=[(os.path.join(cbuild.REPO, "source", "memtrace.c"),
                  ["-include", os.path.join(_H, "memtrace_hooks.h")], "memtrace_hooked")],
 )
+# second flavour: the platform variant without <execinfo.h> (aws_backtrace() returns 0): source/posix/system_info.c
+# compiled from /repo with AWS_HAVE_EXECINFO undefined takes the place of the library's object
+HARNESS_NOBT = dict(HARNESS, extra_srcs=HARNESS["extra_srcs"] + [
+    (os.path.join(cbuild.REPO, "source", "posix", "system_info.c"), ["-include", os.path.join(_H, "memtrace_nobt.h")], "system_info_nobt")])
 TIMEOUT = 300
 # aws_mem_realloc's emulation path calls memcpy(newptr, NULL, 0) for a NULL *ptr: a recoverable UBSan
 # report (nonnull) that would otherwise be printed into the compared stream
 C_ENV = {"UBSAN_OPTIONS": "print_stacktrace=1:suppressions=" + os.path.join(_H, "memtrace_ubsan.supp")}
 CFGS = {"full": (True, True), "norealloc": (False, True), "nocalloc": (True, False), "minimal": (False, False)}
-TRUSTED = ["hand model lean/AwsVerif/Model/MemTrace.lean (tied by this correspondence run only)",
+TRUSTED = ["gen/memtrace_gen.py: level / frames clamp of s_alloc_tracer_init and the enum values, regenerated from /repo each run",
+           "hand model lean/AwsVerif/Model/MemTrace.lean (tied by this correspondence run only)",
            "harness/memtrace_hooks.h + verif_atomics.h: force-included macros turning the tracer's atomics and mutex calls into schedule points",
            "harness parent allocator (addresses on command, LIFO reuse, ASan poisoning of slack)",
            "hash table (C02), priority queue (C06), backtrace capture and log formatting are not modelled"]
@@ -32,6 +37,27 @@ RULE = ("op histories over one tracer (levels none/bytes/stacks, frames 0/1/8/12
         "rel/fill/dump/bytes/count/destroy, some operations with another complete operation injected at a schedule point of the tracer; "
         "non-trivial = at least 3 tracked allocations and one realloc or release at a tracing level")
 NOT_PROVED = []
+
+
+
+def regen(ctx):
+    """level / frames clamp of s_alloc_tracer_init and the enum values, regenerated from /repo on every run"""
+    from gen import memtrace_gen
+    try:
+        text = memtrace_gen.generate(cbuild.REPO)
+    except memtrace_gen.GenError as e:
+        raise core.GenError(str(e))
+    core.write_if_changed(os.path.join(core.LEAN, "AwsVerif", "Gen", "MemTraceInit.lean"), text)
+    # a replay of a case written for the no-backtrace platform runs on that flavour of the harness
+    if ctx.replay:
+        try:
+            import json
+            if any(o.startswith("new ") and o.endswith(" nobt") for o in (json.load(open(ctx.replay)).get("ops") or [])):
+                global HARNESS
+                HARNESS = HARNESS_NOBT
+        except (OSError, ValueError):
+            pass
+
 
 M64 = 1 << 64
 BIG = 1048576
@@ -70,6 +96,7 @@ class _Gen:
         self.next_id = 0
         self.ops = []
         self.cfg = "full"
+        self.nobt = False
         self.unbacked = set()
         self.tags = {"levels": [], "inject": 0, "realloc": 0, "cfgs": []}
 
@@ -163,7 +190,8 @@ class _Gen:
         self.cfg = rng.choice(["full", "full", "full", "norealloc", "norealloc", "minimal", "minimal", "nocalloc"])
         self.tags["levels"].append(lvl)
         self.tags["cfgs"].append(self.cfg)
-        self.ops.append(f"new {lvl} {frames}" + ("" if self.cfg == "full" and rng.random() < 0.5 else f" {self.cfg}"))
+        self.ops.append(f"new {lvl} {frames}" + ("" if self.cfg == "full" and rng.random() < 0.5 and not self.nobt else f" {self.cfg}") +
+                        (" nobt" if self.nobt else ""))
         if lvl == "stacks" and rng.random() < 0.3:
             self.ops.append(f"depth {rng.choice([1, 5, 140, 210])}")
         for _ in range(nops):
@@ -246,13 +274,32 @@ class _Gen:
             self._drop(t[1])
 
 
-def gen_case(rng, maxops, boundary=False):
+def gen_case(rng, maxops, boundary=False, nobt=False):
     g = _Gen(rng, boundary)
+    g.nobt = nobt
     if g.tracer(rng.randint(1, maxops)) and rng.random() < 0.25:
         g.next_id = 0
         g.tracer(rng.randint(1, maxops // 2 + 1))
     g.tags["boundary"] = boundary
+    g.tags["nobt"] = nobt
     return Case(g.ops, g.tags)
+
+
+def nobt_cases(rng, tier):
+    """cases for the platform variant where aws_backtrace() is unavailable: the level matrix and random histories"""
+    cases = []
+    for lvl in ("none", "bytes", "stacks"):
+        for frames in (0, 1, 8, 128, 200):
+            for cfg in CFGS:
+                cases.append(Case([f"new {lvl} {frames} {cfg} nobt", "acq p0 40", "calloc p1 3 5", "realloc p0 90 keep",
+                                   "realloc p1 4 move", "dump", "count", "inject LOCK 1 acq p2 7", "realloc p0 10 move", "rel p1",
+                                   "bytes", "rel p0", "rel p2", "dump", "destroy"],
+                                  {"levels": [lvl], "cfgs": [cfg], "nobt": True, "inject": 1, "realloc": 3, "matrix": True}))
+    cases.append(Case(["new bytes 8 full nobt", "new bytes 8 full nobt", "acq p0 3", "destroy", "new stacks 8 sideways nobt", "new none 200 minimal nobt",
+                       "acq p0 3", "destroy"],
+                      {"levels": ["bytes"], "nobt": True, "malformed": True, "inject": 0, "realloc": 0}))
+    cases += [gen_case(rng, 35, nobt=True) for _ in range(250 if tier == "quick" else 4000)]
+    return cases
 
 
 MALFORMED = [
@@ -445,16 +492,19 @@ def oracle(case, lines):
             errs.append(f"{what}: block contents differ from what the wrapped allocator holds (size {ent[0]}): {l}")
 
     pending = None
+    nobt = False
     for op in case.ops:
         t = op.split()
         if errs and len(errs) > 6:
             break
         if t[0] == "new":
-            if ref is not None or len(t) not in (3, 4) or t[1] not in ("none", "bytes", "stacks") or (len(t) == 4 and t[3] not in CFGS):
+            nobt = len(t) == 5 and t[4] == "nobt"
+            if ref is not None or not (len(t) in (3, 4) or nobt) or t[1] not in ("none", "bytes", "stacks") or (len(t) >= 4 and t[3] not in CFGS):
                 if nxt() != "bad-op":
                     errs.append(f"{op}: expected bad-op")
                 continue
-            ref = _Ref(t[1], t[3] if len(t) == 4 else "full")
+            # without backtrace the tracer runs at min(requested, bytes); a tracer requested off stays off
+            ref = _Ref("bytes" if nobt and t[1] == "stacks" else t[1], t[3] if len(t) >= 4 else "full")
             pending = None
             check_stat(nxt(), op)
             continue
@@ -591,10 +641,10 @@ def distribution(cases, c_out):
         for o in c.ops:
             t = o.split()
             d["ops"][t[0]] = d["ops"].get(t[0], 0) + 1
-            if t[0] == "new" and len(t) in (3, 4):
+            if t[0] == "new" and len(t) in (3, 4, 5):
                 d["levels"][t[1]] = d["levels"].get(t[1], 0) + 1
                 d["frames"][t[2]] = d["frames"].get(t[2], 0) + 1
-                c_ = t[3] if len(t) == 4 else "full"
+                c_ = t[3] if len(t) >= 4 else "full"
                 d.setdefault("parent_cfg", {})[c_] = d.setdefault("parent_cfg", {}).get(c_, 0) + 1
             if t[0] == "inject" and len(t) > 3:
                 d["injected"] += 1
@@ -658,6 +708,16 @@ def extra_stages(ctx):
             args = (rng.randint(1, 10 ** 6), nt, 5, 250 if ctx.tier == "quick" else 1500, lvl, frames, cfg)
             if _threads_run(ctx, exe, args):
                 return
+    _nobt_stage(ctx)
+
+
+def _nobt_stage(ctx):
+    exe = cbuild.build_harness(**HARNESS_NOBT)
+    keep = ctx.cov.get("distribution")
+    core.correspondence_stage(ctx, nobt_cases(ctx.rng, ctx.tier), exe)
+    ctx.cov["distribution_no_backtrace_platform"] = ctx.cov.get("distribution")
+    if keep is not None:
+        ctx.cov["distribution"] = keep
 
 
 def replay(ctx, obj):
